@@ -54,9 +54,12 @@ class Replay:
                 bound_self = bool(g.cls is not None and not g.is_static and g.params and g.params[0] in ("self", "cls"))
                 same_self = bound_self and isinstance(call.func, ast.Attribute) and isinstance(call.func.value, ast.Name) \
                     and call.func.value.id in ("self", "cls")
-                new_env: Dict[str, Any] = {}
+                # the caller's bindings stay visible for names the helper does not bind itself: simple arguments are
+                # substituted into the helper's body (paths._callee_body) and still mean the caller's objects there
+                own = set(g.params) | {n.id for n in ast.walk(g.node) if isinstance(n, ast.Name) and isinstance(n.ctx, (ast.Store, ast.Del))}
+                new_env: Dict[str, Any] = {k: v for k, v in sym.env.items() if "." not in k and k not in own}
                 if same_self:
-                    new_env = {k: v for k, v in sym.env.items() if k.startswith("self.") or k.startswith("cls.")}
+                    new_env.update({k: v for k, v in sym.env.items() if k.startswith("self.") or k.startswith("cls.")})
                 from .calls import arg_for
                 for pn in g.params:
                     if bound_self and pn == g.params[0]:
@@ -93,9 +96,13 @@ class Replay:
                 continue
             if ev.kind == "iter":
                 lp = ev.node
-                if isinstance(ev.data, int) and isinstance(lp.iter, (ast.Tuple, ast.List)) and ev.data < len(lp.iter.elts):
+                lit = lp.iter
+                if isinstance(lit, ast.Name):
+                    from .astutil import single_assignments
+                    lit = single_assignments(cur_fn.node).get(lit.id) if not cur_fn.is_lambda else None
+                if isinstance(ev.data, int) and isinstance(lit, (ast.Tuple, ast.List)) and ev.data < len(lit.elts):
                     # for x in (a, b, c): the loop variable is the element of this iteration
-                    el = lp.iter.elts[ev.data]
+                    el = lit.elts[ev.data]
                     if isinstance(lp.target, ast.Name):
                         sym.bind(lp.target.id, sym.lin(el))
                     elif isinstance(lp.target, (ast.Tuple, ast.List)) and isinstance(el, (ast.Tuple, ast.List)) and len(el.elts) == len(lp.target.elts):
@@ -150,6 +157,20 @@ class Replay:
         if k is not None:
             self.sym.bind(k, self.sym.lin(value))
         elif isinstance(target, (ast.Tuple, ast.List)):
+            vt = self.sym.lin(value).single_term()
+            if vt is not None and vt[0] == "tuple" and len(vt[1]) == len(target.elts):
+                for e, v in zip(target.elts, vt[1]):      # a, b = struct.unpack_from('>Hh', data, 4)
+                    kk = target_key(e)
+                    if kk is not None:
+                        self.sym.bind(kk, v)
+                return
+            if isinstance(value, (ast.Tuple, ast.List)) and len(value.elts) == len(target.elts):
+                vals = [self.sym.lin(v) for v in value.elts]
+                for e, v in zip(target.elts, vals):
+                    kk = target_key(e)
+                    if kk is not None:
+                        self.sym.bind(kk, v)
+                return
             for e in target.elts:
                 kk = target_key(e)
                 if kk is not None:
